@@ -1,5 +1,6 @@
 import Zstd.Driver.Tables
 import Zstd.Driver.Spec
+import Zstd.Driver.Dec
 /-
 `zmodel`: the model side of the correspondence check.  Reads one request per line on stdin
 (`<engine> <op> <args…>`), answers one line on stdout.  Stateless engines are pure functions
@@ -8,12 +9,13 @@ of the line; stateful engines thread their state through `St`.
 open Zstd Zstd.Driver
 
 structure St where
-  dummy : Unit := ()
+  dec : Dec.St := Dec.init
 
 def step (st : St) (line : String) : St × String :=
   match line.trimAscii.toString.splitOn " " with
   | "tables" :: cmd :: args => (st, Tables.handle cmd args)
   | "spec" :: cmd :: args => (st, Driver.Spec.handle cmd args)
+  | "dec" :: args => let (s2, o) := Dec.step st.dec args; ({ st with dec := s2 }, o)
   | _ => (st, badOp)
 
 partial def loop (h : IO.FS.Stream) (out : IO.FS.Stream) (st : St) : IO Unit := do
